@@ -13,6 +13,7 @@ var props = map[string]struct {
 	level string
 	fn    func(*h.Run)
 }{
+	"dbg-c09x": {"other", h.DebugC09X},
 	"dbg-conc2": {"other", h.DebugConc2},
 	"dbg-conc": {"other", h.DebugConc},
 	"dbg-c20w": {"other", h.DebugC20W},
